@@ -90,24 +90,25 @@ theorem accepted_response_rules (blk : HeaderBlock) (g : List Header) (sid : Nat
     | some v => exact Or.inl rfl
 
 /-- **trailers**: neither role looks at the pseudo-header part of trailers — what may be violated is
-    exactly the known finding F5c (`pseudo-in-trailers`) -/
+    exactly the known finding F5c (`pseudo-in-trailers`); over-size trailers are never handed over
+    (finding N6, repaired) -/
 theorem accepted_trailers_rules (blk : HeaderBlock) (g : List Header) (sid : Nat) (eos : Bool) (ev : REvent)
-    (hm : blk.isMalformed = false) (ho : blk.isOverSize = false) (hb : BlockInv blk g)
+    (hm : blk.isMalformed = false) (hb : BlockInv blk g)
     (hok : ∀ x ∈ g, fieldOk x = true) (ha : TrailersAccepted (Conn.headersIn sid eos blk) ev) :
     (∀ r ∈ Spec.Http.trailers g, r = "pseudo-in-trailers") ∧ ev = .trailers (groupInto [] (regular g)) := by
+  obtain ⟨hev, ho⟩ := ha
   obtain ⟨hcm, -, hfl⟩ := block_exact blk g hm ho hb hok
-  refine ⟨fun r hr => ?_, by rw [ha]; simp only [Conn.headersIn, hfl]⟩
+  refine ⟨fun r hr => ?_, by rw [hev]; simp only [Conn.headersIn, hfl]⟩
   unfold Spec.Http.trailers at hr
   rw [hcm, List.nil_append] at hr
   split at hr
   · simpa using hr
   · cases hr
 
-
 /-- what the application may be handed for a delivered header block that stands for the field list `g`:
     a request (server) / response (client) whose only possible rule violations are the listed
     exceptions, with exactly the regular fields of `g`; or trailers -/
-def ValidEvent (cfg : Bool × Bool) (blk : HeaderBlock) (g : List Header) (ev : REvent) : Prop :=
+def ValidEvent (cfg : Bool × Bool) (g : List Header) (ev : REvent) : Prop :=
   match ev with
   | .request m _ f => cfg.1 = true ∧ (∀ r ∈ Spec.Http.request g cfg.2, RequestException g r) ∧
       f = groupInto [] (regular g) ∧ Spec.Http.get g ":method" = [m]
@@ -119,13 +120,12 @@ def ValidEvent (cfg : Bool × Bool) (blk : HeaderBlock) (g : List Header) (ev : 
       (∀ r ∈ Spec.Http.response g, r = "missing-status" ∨ r = "request-pseudo-in-response") ∧
       f = groupInto [] (regular g) ∧
       (Spec.Http.get g ":status" = [st] ∨ (Spec.Http.get g ":status" = [] ∧ st = Http.str "200"))
-  | .trailers f => blk.isOverSize = true ∨
-      ((∀ r ∈ Spec.Http.trailers g, r = "pseudo-in-trailers") ∧ f = groupInto [] (regular g))
+  | .trailers f => (∀ r ∈ Spec.Http.trailers g, r = "pseudo-in-trailers") ∧ f = groupInto [] (regular g)
   | .data .. => False
 
 theorem frameAccepted_valid (blk : HeaderBlock) (g : List Header) (sid : Nat) (eos : Bool) (cfg : Bool × Bool)
     (ev : REvent) (hm : blk.isMalformed = false) (hb : BlockInv blk g) (hok : ∀ x ∈ g, fieldOk x = true)
-    (ha : FrameAccepted cfg (Conn.headersIn sid eos blk) ev) : ValidEvent cfg blk g ev := by
+    (ha : FrameAccepted cfg (Conn.headersIn sid eos blk) ev) : ValidEvent cfg g ev := by
   rcases ha with ha | ha
   · cases ev with
     | request m u f =>
@@ -139,17 +139,14 @@ theorem frameAccepted_valid (blk : HeaderBlock) (g : List Header) (sid : Nat) (e
       exact ⟨ha.2.1, r1, r2, r3⟩
     | data p b => exact ha.2
     | trailers f => exact ha.2.elim
-  · cases hov : blk.isOverSize with
-    | true => rw [ha]; exact Or.inl hov
-    | false =>
-      obtain ⟨r1, r2⟩ := accepted_trailers_rules blk g sid eos ev hm hov hb hok ha
-      rw [r2]
-      exact Or.inr ⟨r1, rfl⟩
+  · obtain ⟨r1, r2⟩ := accepted_trailers_rules blk g sid eos ev hm hb hok ha
+    rw [r2]
+    exact ⟨r1, rfl⟩
 
 /-- **the receive path for header frames, end to end** -/
 theorem recvHeaders_valid (s : Streams) (blk : HeaderBlock) (g : List Header) (sid : Nat) (eos : Bool)
     (hm : blk.isMalformed = false) (hb : BlockInv blk g) (hok : ∀ x ∈ g, fieldOk x = true) :
-    Delivers (fun _ ev => ValidEvent (cfgOf s) blk g ev) s (s.recvHeaders (Conn.headersIn sid eos blk)).1 :=
+    Delivers (fun _ ev => ValidEvent (cfgOf s) g ev) s (s.recvHeaders (Conn.headersIn sid eos blk)).1 :=
   (recvHeaders_delivers s _).mono fun _ ev ha => frameAccepted_valid blk g sid eos _ ev hm hb hok ha
 
 end H2V.Lemmas.ConnHttpP
